@@ -112,7 +112,10 @@ Definition tol_scale (f : Q) (tl : tol) : tol :=
 (* recorded numpy.linalg.lstsq call: columns, right-hand side, residual field (None = empty) *)
 Definition lstsq_obs_ok (r : list cvec * cvec * option Q) : bool :=
   match r with
-  | (ws, v, Some o) => Qle_bool (Qabs (o - cres2 ws v)) ((1 # 1000000000) * norm2 v + (1 # 10) ^ 200)
+  | (ws, v, Some o) =>
+      (* exactly dependent columns whose rank LAPACK failed to detect: the returned number is numerical noise *)
+      if (crank ws <? length ws)%nat then true
+      else Qle_bool (Qabs (o - cres2 ws v)) ((1 # 1000000000) * norm2 v + (1 # 10) ^ 200)
   | (ws, v, None) => (crank ws <? length ws)%nat || (length v <=? length ws)%nat
   end.
 
@@ -123,14 +126,19 @@ Record gcase := mkCase {
 Definition run_case (k : gcase) (tl : tol) : outcome :=
   grade (k_g k) tl (k_cmp k) (k_ag k) (k_failable k) (k_samples k).
 Definition delta : Q := 1 # 100000.
-Definition robust (k : gcase) : bool :=
-  k_exact k || (outcome_eqb (run_case k (tol_scale (1 - delta) (k_tol k))) (run_case k (tol_scale (1 + delta) (k_tol k)))
-                && outcome_eqb (run_case k (tol_scale (1 - delta) (k_tol k))) (run_case k (k_tol k))).
-Definition case_ok (k : gcase) : bool :=
-  forallb lstsq_obs_ok (k_lstsq k) && (negb (robust k) || outcome_eqb (run_case k (k_tol k)) (k_obs k)).
-Definition case_boundary (k : gcase) : bool := negb (robust k).
-Fixpoint c16_idx {A} (f : A -> bool) (l : list A) (i : nat) : list nat :=
-  match l with nil => nil | x :: r => if f x then c16_idx f r (S i) else i :: c16_idx f r (S i) end.
+(* 0 = agrees, 1 = disagrees, 2 = boundary (verdict changes when the tolerance is scaled by 1 +- delta) *)
+Definition case_code (k : gcase) : Z :=
+  if negb (forallb lstsq_obs_ok (k_lstsq k)) then 1%Z
+  else
+    let mid := run_case k (k_tol k) in
+    if k_exact k then (if outcome_eqb mid (k_obs k) then 0%Z else 1%Z)
+    else
+      let lo := run_case k (tol_scale (1 - delta) (k_tol k)) in
+      if negb (outcome_eqb lo mid) then 2%Z
+      else
+        let hi := run_case k (tol_scale (1 + delta) (k_tol k)) in
+        if negb (outcome_eqb lo hi) then 2%Z
+        else if outcome_eqb mid (k_obs k) then 0%Z else 1%Z.
 '''
 
 EDX_GOOD = '<span style="color:#008100">✓</span>'
@@ -478,19 +486,19 @@ def eval_cases(tag, terms, shard):
     for k in range(0, len(terms), shard):
         chunk = terms[k:k + shard]
         text = (HEADER + AGREE_DEFS + '\nDefinition c16_cases : list gcase :=\n  [ %s ].\n' % '\n  ; '.join(chunk) +
-                'Eval vm_compute in (c16_idx case_ok c16_cases 0, c16_idx (fun k => negb (case_boundary k)) c16_cases 0).\n')
+                'Eval vm_compute in (map case_code c16_cases).\n')
         files.append(('%s_%04d' % (tag, k // shard), text))
     res = core.run_case_files(files)
     failing, boundary, errors = [], [], []
     for (name, rc, out), k in zip(res, range(0, len(terms), shard)):
-        m = re.search(r'=\s*\(\s*(\[.*?\]|nil)\s*,\s*(\[.*?\]|nil)\s*\)\s*:\s*list nat \* list nat', out, re.S) if rc == 0 else None
-        if not m:
+        m = re.search(r'=\s*(\[.*?\]|nil)\s*(?:%Z)?\s*:\s*list Z', out, re.S) if rc == 0 else None
+        codes = [int(x) for x in re.findall(r'\d+', m.group(1).replace('%Z', ''))] if m else None
+        if codes is None or len(codes) != len(terms[k:k + shard]):
             errors.append((name, out[-2000:]))
             continue
-        failing += [k + int(x) for x in re.findall(r'\d+', m.group(1).replace('%nat', ''))]
-        boundary += [k + int(x) for x in re.findall(r'\d+', m.group(2).replace('%nat', ''))]
+        failing += [k + i for i, c in enumerate(codes) if c == 1]
+        boundary += [k + i for i, c in enumerate(codes) if c == 2]
     return len(terms), failing, boundary, errors
-
 
 # ------------------------------------------------------------------------------------------------
 # generators: spec dicts with an `expect` entry for the property oracle
@@ -514,17 +522,24 @@ def rtol(rng):
     return rng.choice(ABS_TOLS + PCT_TOLS)
 
 
-def rc(rng, cplx=True, lo=-4, hi=4, ints=False):
+def rc(rng, cplx=True, lo=-4, hi=4, ints=False, fine=None):
+    """random scalar: small integers, dyadic eighths (cheap exact arithmetic in the model) or -- `fine` -- 3-decimal numbers"""
+    if fine is None:
+        fine = rng.random() < 0.15
     if ints:
         z = complex(rng.randint(lo, hi), rng.randint(lo, hi) if cplx else 0)
-    else:
+    elif fine:
         z = complex(round(rng.uniform(lo, hi), 3), round(rng.uniform(lo, hi), 3) if cplx else 0)
+    else:
+        z = complex(rng.randint(lo * 8, hi * 8) / 8.0, rng.randint(lo * 8, hi * 8) / 8.0 if cplx else 0)
     return z
 
 
-def rvec(rng, n, cplx, ints=False):
+def rvec(rng, n, cplx, ints=False, fine=None):
+    if fine is None:
+        fine = rng.random() < 0.15
     while True:
-        v = [rc(rng, cplx, ints=ints) for _ in range(n)]
+        v = [rc(rng, cplx, ints=ints, fine=fine) for _ in range(n)]
         if sum(abs(z) ** 2 for z in v) >= 1:
             return v
 
@@ -677,31 +692,25 @@ def gen_eigen(rng, n):
     return out
 
 
-def independent(rng, k, n, cplx, ints):
+def independent(rng, k, n, cplx, ints, fine=False):
     import numpy as np
     while True:
-        ws = [rvec(rng, n, cplx, ints=ints) for _ in range(k)]
+        ws = [rvec(rng, n, cplx, ints=ints, fine=fine) for _ in range(k)]
         sv = np.linalg.svd(np.array(ws), compute_uv=False)
         if len(sv) >= min(k, n) and sv[min(k, n) - 1] / sv[0] > 0.15:
             return ws
 
 
-def orth_unit(ws, rng):
-    """a unit vector orthogonal (hermitian) to all ws; None if they span everything"""
+def span_distance(ws, v):
+    """distance from v to the complex span of the (independent) vectors ws, by QR -- not by least squares"""
     import numpy as np
-    A = np.array(ws, dtype=complex)
-    _, s, vh = np.linalg.svd(A)
-    rank = int(np.sum(s > 1e-9 * s[0]))
-    if rank >= A.shape[1]:
-        return None
-    null = vh[rank:].conj()
-    coef = np.array([complex(rng.uniform(-1, 1), rng.uniform(-1, 1)) for _ in range(null.shape[0])])
-    u = coef.dot(null)
-    return (u / np.linalg.norm(u)).tolist()
+    A = np.array(ws, dtype=complex).T
+    Q, _ = np.linalg.qr(A)
+    v = np.array(v, dtype=complex)
+    return float(np.linalg.norm(v - Q.dot(Q.conj().T.dot(v))))
 
 
 def gen_span(rng, n):
-    import numpy as np
     out = []
     kinds = ['member', 'nonmember', 'member', 'nonmember', 'zero', 'shape', 'dependent', 'nonmember', 'square']
     for i in range(n):
@@ -709,6 +718,7 @@ def gen_span(rng, n):
         dim = rng.choice([2, 3, 3, 4])
         cplx = rng.random() < 0.6
         ints = rng.random() < 0.4
+        fine = rng.random() < 0.15
         pol = rng.choice(POLICIES)
         tolerance = rtol(rng)
         if kind == 'dependent':
@@ -721,13 +731,13 @@ def gen_span(rng, n):
             true_span = base
         elif kind == 'square':
             k = dim
-            ws = independent(rng, k, dim, cplx, ints)
+            ws = independent(rng, k, dim, cplx, ints, fine)
             true_span = ws
         else:
             k = rng.randint(1, dim - 1)
-            ws = independent(rng, k, dim, cplx, ints)
+            ws = independent(rng, k, dim, cplx, ints, fine)
             true_span = ws
-        cs = [rc(rng, cplx or rng.random() < 0.5) for _ in ws]
+        cs = [rc(rng, cplx or rng.random() < 0.5, fine=fine) for _ in ws]
         if sum(abs(c) for c in cs) < 0.5:
             cs[0] += 2
         member = [sum(c * w[j] for c, w in zip(cs, ws)) for j in range(dim)]
@@ -736,23 +746,22 @@ def gen_span(rng, n):
         mnorm = math.sqrt(sum(abs(z) ** 2 for z in member))
         expect = {'kind': 'member'}
         st = vec_str(member)
-        if kind in ('nonmember', 'dependent', 'square') and not (kind == 'square'):
-            u = orth_unit(true_span, rng)
-            if u is not None:
-                f = rng.choice([0.01, 0.3, 2.0])
-                d = f * mnorm
-                v = [z + d * w for z, w in zip(member, u)]
-                st = vec_str(v)
-                expect = {'kind': 'span-nonmember', 'dist': d, 'dependent': kind == 'dependent'}
-        elif kind == 'square':
-            v = rvec(rng, dim, True)
+        if kind in ('nonmember', 'dependent') and len(true_span) < dim:
+            f = rng.choice([0.125, 0.5, 2.0]) if not fine else rng.choice([0.01, 0.3, 2.0])
+            j = rng.randrange(dim)
+            v = list(member)
+            v[j] = v[j] + f * max(1.0, round(mnorm)) * rng.choice([1, -1, 1j])
+            d = span_distance(true_span, v)
             st = vec_str(v)
+            expect = {'kind': 'span-nonmember', 'dist': d, 'dependent': kind == 'dependent'}
+        elif kind == 'square':
+            st = vec_str(rvec(rng, dim, True, fine=fine))
         elif kind == 'zero':
             st, expect = vec_str([0] * dim), {'kind': 'nonmember'}
         elif kind == 'shape':
             st, expect = rng.choice(wrong_shapes(rng, dim)), {'kind': 'wrongshape'}
         out.append({'grader': 'Matrix', 'cmp': {'name': 'span'}, 'params': [vec_str(w) for w in ws], 'tolerance': tolerance,
-                    'student': st, 'expect': expect, 'exact': False, 'policy': pol, 'samples': rng.choice([1, 2])})
+                    'student': st, 'expect': expect, 'exact': False, 'policy': pol, 'samples': rng.choice([1, 1, 2])})
     return out
 
 
@@ -763,21 +772,22 @@ def gen_phase(rng, n):
         kind = kinds[i % len(kinds)]
         dim = rng.choice([2, 3, 4])
         ints = rng.random() < 0.4
-        t = rvec(rng, dim, True, ints=ints)
+        fine = rng.random() < 0.15
+        t = rvec(rng, dim, True, ints=ints, fine=fine)
         pol = rng.choice(POLICIES)
         tolerance = rtol(rng)
         phi = rng.uniform(0, 2 * math.pi)
-        u = rng.choice([cmath.exp(1j * phi), 1j, -1, complex(0.6, 0.8), complex(-0.8, 0.6), 1])
+        u = rng.choice([cmath.exp(1j * phi), complex(0.6, 0.8), complex(-0.8, 0.6)]) if rng.random() < 0.45 else rng.choice([1j, -1, -1j, 1])
         expect = {'kind': 'phase'}
         if kind == 'member':
             st, expect = vec_str([u * z for z in t]), {'kind': 'member'}
         elif kind == 'scaled':
-            st = vec_str([rng.choice([0.5, 0.9, 1.1, 2, 1.0001]) * u * z for z in t])
+            st = vec_str([rng.choice([0.5, 0.9, 1.1, 2, 1.0001] if fine else [0.5, 0.875, 1.125, 2, 1.0009765625]) * u * z for z in t])
         elif kind == 'twisted':
             st = vec_str([cmath.exp(1j * rng.uniform(0, 2 * math.pi)) * z for z in t])
         elif kind == 'perturbed':
-            w = rvec(rng, dim, True)
-            st = vec_str([u * z + rng.choice([1e-3, 0.05, 0.7]) * y for z, y in zip(t, w)])
+            w = rvec(rng, dim, True, fine=fine)
+            st = vec_str([u * z + rng.choice([1e-3, 0.05, 0.7] if fine else [0.0078125, 0.0625, 0.75]) * y for z, y in zip(t, w)])
         elif kind == 'zero':
             st, expect = vec_str([0] * dim), {'kind': 'nonmember'}
         else:
@@ -810,14 +820,16 @@ def gen_entry(rng, n):
                 if z == 0:
                     z = complex(1, 0)
                 e_txt, mag = cnum(z), abs(z)
+            if use_vars and 'x' in e_txt:
+                z = complex(1, 1)
             te = tol_value(tolerance, mag)
             if j in bad:
                 d = (max(1.0, 2000 * te) * rng.uniform(1, 2)) if not exact else rng.choice([1, 2, 0.75])
                 if exact and d <= te:
                     d = te + 1
                 s_txt = '%s+%s' % (e_txt, fnum(rng.choice([-1, 1]) * d))
-            elif exact and te > 0 and rng.random() < 0.3:
-                s_txt = '%s+%s' % (e_txt, fnum(rng.choice([-1, 1]) * te))      # exactly at the tolerance: still a match
+            elif exact and te > 0 and not isinstance(tolerance, str) and abs(z.imag) == 0 and rng.random() < 0.3:
+                s_txt = '%s+%s' % (e_txt, fnum(rng.choice([-1, 1]) * te))      # exactly at the (dyadic) tolerance: still a match
             elif not exact and te > 0 and rng.random() < 0.3:
                 s_txt = '%s+%s' % (e_txt, fnum(rng.choice([-1, 1]) * 0.3 * te * (0.2 if use_vars else 1)))
             else:
@@ -853,17 +865,18 @@ LINEAR_CFGS = [{}, {'offset': 0.7, 'linear': 0.3}, {'equals': None, 'proportiona
 def gen_linear(rng, n):
     out = []
     for i in range(n):
-        exact = rng.random() < 0.35
+        sampling = rng.choice(['int'] * 13 + ['real'] * 4 + ['complex'] * 3)
         vector = rng.random() < 0.4
         cfg = rng.choice(LINEAR_CFGS)
-        tolerance = rtol(rng) if not exact else rng.choice(['1%', '0.01%', 0.125])
-        samples = rng.choice([3, 4, 5])
-        cplx = rng.random() < 0.3 and not exact
+        tolerance = rtol(rng)
+        samples = rng.choice([3, 4, 5]) if sampling == 'int' else 3
+        cplx = sampling == 'complex' or rng.random() < 0.15
         a = rng.choice([1, 1, 2, -3, 0.5, complex(1, 1) if cplx else 4, 0])
         b = rng.choice([0, 0, 1, -2, 0.25, complex(0, 1) if cplx else 3])
         form = rng.choice(['lin', 'lin', 'lin', 'lin', 'square', 'zero', 'const', 'shape' if vector else 'lin', 'iso' if vector else 'lin'])
         if vector:
-            E = rng.choice(['[x, y]', '[x, x^2, 1]', '[x+y, x-y]', '[0, 0]' if form == 'zero' and rng.random() < 0.5 else '[x, 2*y]'])
+            E = rng.choice(['[x, y]', '[x, x^2, 1]' if sampling == 'int' else '[y, x]', '[x+y, x-y]',
+                            '[0, 0]' if form == 'zero' and rng.random() < 0.5 else '[x, 2*y]'])
             dim = E.count(',') + 1
             ones_v = '[' + ', '.join(['1'] * dim) + ']'
             S = '%s*%s+%s*%s' % (cnum(a), E, cnum(b), ones_v)
@@ -878,7 +891,6 @@ def gen_linear(rng, n):
             elif form == 'iso':
                 offs = rng.choice([[1, 1j], [1j, 1], [2, -2j]]) + [0] * (dim - 2)
                 S = '%s+%s' % (E, vec_str(offs))
-            variables = ['x', 'y']
             grader = 'Matrix'
         else:
             E = rng.choice(['x', 'x^2+1', '3', 'x*y', '0' if form == 'zero' and rng.random() < 0.5 else '2*x'])
@@ -889,9 +901,9 @@ def gen_linear(rng, n):
                 S = '0'
             elif form == 'const':
                 S = fnum(rng.choice([3, 6, 1.5, -2]))
-            variables = ['x', 'y']
             grader = rng.choice(['Formula', 'Matrix'])
-        sf = {v: (['int', 1, 30] if exact else ['complex', 1, 3] if cplx and rng.random() < 0.5 else ['real', 1, 5]) for v in variables}
+        variables = ['x', 'y']
+        sf = {v: {'int': ['int', 1, 30], 'real': ['real', 1, 5], 'complex': ['complex', 1, 3]}[sampling] for v in variables}
         spec = {'grader': grader, 'cmp': {'name': 'linear', 'cfg': cfg}, 'params': [E], 'tolerance': tolerance, 'student': S,
                 'expect': {'kind': 'wrongshape'} if form == 'shape' else {'kind': 'linear'}, 'exact': False,
                 'variables': variables, 'sample_from': sf, 'samples': samples, 'ag': rng.choice([1, 1, 0.5]),
@@ -921,7 +933,8 @@ def gen_equality(rng, n):
         tol = tol_value(tolerance, nrm)
         mode = rng.choice(['same', 'near', 'far', 'shape', 'at'])
         j = rng.randrange(len(flatE))
-        d = {'same': 0, 'near': 0.4 * tol, 'far': max(2000 * tol, 0.5), 'at': tol if exact else 0.9 * tol, 'shape': 0}[mode]
+        d = {'same': 0, 'near': 0.4 * tol, 'far': max(2000 * tol, 0.5),
+             'at': tol if (exact and not isinstance(tolerance, str)) else 0.9 * tol, 'shape': 0}[mode]
         flatS = list(flatE)
         flatS[j] = flatS[j] + d
 
@@ -1051,6 +1064,31 @@ def fr(x):
     return Fraction(float(x))
 
 
+def params_dependent(params):
+    """exact (Fraction, Gaussian elimination over Q[i] as pairs) test that the recorded spanning vectors are linearly dependent"""
+    import numpy as np
+    rows = [[(fr(complex(z).real), fr(complex(z).imag)) for z in np.array(p).reshape(-1).tolist()] for p in params]
+
+    def mul(a, b):
+        return (a[0] * b[0] - a[1] * b[1], a[0] * b[1] + a[1] * b[0])
+
+    def div(a, b):
+        d = b[0] * b[0] + b[1] * b[1]
+        return ((a[0] * b[0] + a[1] * b[1]) / d, (a[1] * b[0] - a[0] * b[1]) / d)
+    rank, ncols = 0, len(rows[0]) if rows else 0
+    rows = [list(r) for r in rows]
+    for col in range(ncols):
+        piv = next((i for i in range(rank, len(rows)) if rows[i][col] != (0, 0)), None)
+        if piv is None:
+            continue
+        rows[rank], rows[piv] = rows[piv], rows[rank]
+        for i in range(rank + 1, len(rows)):
+            f = div(rows[i][col], rows[rank][col])
+            rows[i] = [(x[0] - mul(f, y)[0], x[1] - mul(f, y)[1]) for x, y in zip(rows[i], rows[rank])]
+        rank += 1
+    return rank < len(rows)
+
+
 def oracle(spec, run):
     import numpy as np
     from mitxgraders.exceptions import InputTypeError, MITxError
@@ -1139,8 +1177,7 @@ def oracle(spec, run):
             if rejected(run):
                 return None
             finding = None
-            if exp.get('dependent') and run.lstsq and run.lstsq[-1][2].size == 0 and run.lstsq[-1][3] < run.lstsq[-1][0].shape[1] \
-                    and accepted(run, ag):
+            if exp.get('dependent') and run.lstsq and params_dependent(call['params']) and accepted(run, ag):
                 finding = 'vector_span_comparer-dependent-vectors'
             return {'what': 'vector at distance %.3g from the span (tolerance %.3g) is not rejected: %s' % (exp['dist'], tol, describe(run)),
                     'finding': finding}
@@ -1248,6 +1285,18 @@ def linear_oracle(spec, run):
 # ------------------------------------------------------------------------------------------------
 # driver API
 # ------------------------------------------------------------------------------------------------
+def lstsq_rank_unreliable(run):
+    """LinearComparer's `rank == 1` test: columns [x, 1] with x exactly constant but rank 2 reported (or the converse).
+    LAPACK's rank decision at machine precision is then noise and so is the residual; such runs are set aside and counted."""
+    import numpy as np
+    for a, b, resid, rank in run.lstsq:
+        if a.shape[1] == 2:
+            constant = bool(np.all(a[:, 0] == a[0, 0]))
+            if constant != (rank == 1):
+                return True
+    return False
+
+
 def spec_key(spec):
     return '%s/%s/%s/tol=%s/%s' % (spec['grader'], json.dumps(spec['cmp'], sort_keys=True), '|'.join(spec['params']),
                                    spec['tolerance'], spec['student'])
@@ -1294,6 +1343,9 @@ def run(ctx):
         dist['lstsq_rank_deficient_reported'] += sum(1 for l in r.lstsq if l[2].size == 0)
         oc = 'ok=%r' % (r.out.get('ok'),) if r.status == 'ret' else type(r.out).__name__
         dist['outcomes'][oc] = dist['outcomes'].get(oc, 0) + 1
+        if name == 'linear' and lstsq_rank_unreliable(r):
+            dist['lstsq_rank_unreliable'] = dist.get('lstsq_rank_unreliable', 0) + 1
+            continue
         try:
             verdict = oracle(spec, r)
         except Exception as e:                                # the oracle itself must never break the run silently
